@@ -177,7 +177,7 @@ PROPS['C07'] = dict(
 )
 
 PROPS['C05'] = dict(
-    bounded_quick=[('history', 'Node::spill and InnerBucket::merge_nodes / node (an Rc<RefCell<Node>> graph mutated through shared handles: outside both verifiers), Page::write_node (raw-pointer serialisation) beyond the bounded Kani codec; Node::split / write / free_page / NodeData::merge and InnerBucket::{rebalance, spill, page_node} ARE under contract (units split, nodeio, bucketcommit, overlay)')],
+    bounded_quick=[('checker', 'stands in for TxInner::check when unit check is undecided (rewritten body): structurally damaged files must be rejected by DB::check()'), ('history', 'Node::spill and InnerBucket::merge_nodes / node (an Rc<RefCell<Node>> graph mutated through shared handles: outside both verifiers), Page::write_node (raw-pointer serialisation) beyond the bounded Kani codec; Node::split / write / free_page / NodeData::merge and InnerBucket::{rebalance, spill, page_node} ARE under contract (units split, nodeio, bucketcommit, overlay)')],
     level='proof',
     composition='the accounting part of INV (pending pages below the high-water mark, not free, pending once; live pages not free) is preserved by begin/end reader and commit: Verus lemma L2 (contracts/lemmas.vtmpl) under assumptions A1/A2',
     units=['freelist', 'commit', 'open', 'pagenode', 'lemmas', 'bucketops', 'nodeio', 'split', 'bucketcommit', 'check'],
@@ -218,6 +218,7 @@ PROPS['C01'] = dict(
 
 PENDING = 'not claimed yet in this build session: deciding units are not built (see DESIGN section 10)'
 PROPS['C13'] = dict(
+    bounded_quick=[('lock', 'that NO other code gives the lock away while a handle is alive (a Drop impl, an explicit unlock, a second file handle) is a frame condition over the whole crate, outside any function contract; cex/lock.rs probes the lock from a second process (python3 flock) along a scripted history of handle clones, transactions and drops')],
     level='other',
     units=['open'],
     explanation='SCOPED to the mechanism inside this code base; the exclusion itself is the operating system\'s. Proved on the real bodies of DBInner::open and OpenOptions::open: '
